@@ -55,7 +55,11 @@ def multi_edge_files():
                  A.stanza(q, [A.node(A.var("k")), A.edge(A.svar(A.cap("id"), "n"), A.var("k")), A.edge(A.var("k"), A.svar(A.cap("id"), "n"))])])
     f6 = A.file([A.stanza("(expression_statement)+ @_es ", [A.node(A.var("n")), A.attrn(A.var("n"), A.attr("k", A.integer(1)))])])
     f7 = A.file([A.stanza("(module (expression_statement)+ @es) ", [A.node(A.var("n")), A.attrn(A.var("n"), A.attr("all", A.cap("es")))])])
-    return [f1, f2, f3, f4, f5, f6, f7]
+    # non-ASCII strings and identifiers before the statements whose location is recorded (in the random layouts they often share a line)
+    f8 = A.file([A.stanza("((identifier) @id (#not-eq? @id \"größe中\")) ", [A.let(A.var("größe"), A.string("é中ü")), A.node(A.var("a")), A.let(A.var("t"), A.string("中中中")), A.node(A.var("bé")),
+                                                                          A.edge(A.var("a"), A.var("bé")), A.attrn(A.var("a"), A.attr("é", A.string("ß"))), A.node(A.svar(A.cap("id"), "nö")),
+                                                                          A.edge(A.var("bé"), A.svar(A.cap("id"), "nö"))])])
+    return [f1, f2, f3, f4, f5, f6, f7, f8]
 
 
 def make_cases(tier):
@@ -101,7 +105,9 @@ def run(tier):
     # the same files written with pseudo-random layouts (blanks, line breaks and comments wherever the syntax allows them, string
     # literals spanning lines): locations are those of the variable's first character in that text
     lay = []
-    for c in cases[: (240 if tier == "quick" else 3000)]:
+    hand = [c for c in cases if c["id"].startswith("c15h-")]
+    rest = [c for c in cases if not c["id"].startswith("c15h-")]
+    for c in hand + rest[: (160 if tier == "quick" else 3000)]:
         if c["id"].endswith("~dbg"):
             cc = json.loads(json.dumps(c))
             cc["id"] = c["id"][:-4] + "~lay~dbg"
